@@ -10,7 +10,6 @@ import (
 	"github.com/ontio/ontology-crypto/keypair"
 	"github.com/polynetwork/poly/common"
 	"github.com/polynetwork/poly/consensus/vbft"
-	"github.com/polynetwork/poly/core/signature"
 	"github.com/polynetwork/poly/core/types"
 	ptypes "github.com/polynetwork/poly/p2pserver/message/types"
 
@@ -272,13 +271,7 @@ func c44FuzzSeeds() [][]byte {
 		}
 	}
 	pay := &ptypes.ConsensusPayload{Version: 1, PrevHash: h256(hash), Height: 9, BookkeeperIndex: 2, Timestamp: 1600000001, Data: endorseWire, Owner: pubOf(2)}
-	buf := new(bytes.Buffer)
-	pay.SerializeUnsigned(buf)
-	sg, err := signature.Sign(acct(2), buf.Bytes())
-	if err != nil {
-		panic(err)
-	}
-	pay.Signature = sg
+	pay.Signature = signBytes(2, refPayloadUnsigned(pay))
 	out = append(out, append([]byte{11}, payloadWire(pay)...))
 	out = append(out, []byte{10, '{', '}'}, []byte{1}, []byte{0, 0xfd, 0xff, 0xff})
 	return out
